@@ -2,12 +2,14 @@ import OrasModel.Driver.G
 import OrasModel.Driver.V
 import OrasModel.Driver.R
 import OrasModel.Driver.Cp
+import OrasModel.Driver.Fr
 open Oras.Driver
 
 structure DState where
   g : G.St := {}
   v : V.St := {}
   cp : Cp.St := {}
+  fr : Fr.St := {}
 
 def answer (r : Option (α × String × String)) (st : DState) (upd : α → DState) : DState × String :=
   match r with
@@ -24,6 +26,7 @@ def handle (st : DState) (line : String) : DState × String :=
       | some (m, s) => (st, s!"m={m} s={s}")
       | none => (st, "bad-op"))
   | "cp" :: rest => answer (Cp.step st.cp rest) st (fun c => { st with cp := c })
+  | "fr" :: rest => answer (Fr.step st.fr rest) st (fun c => { st with fr := c })
   | "v" :: rest => answer (V.step st.v rest) st (fun v => { st with v := v })
   | _ => (st, "bad-op")
 
